@@ -16,7 +16,7 @@ BUILT = {
         "D2", "5/C06",
         "deterministic simulation: simulated Binance (seeded book process, REST snapshot JSON, depth-event JSON frames for spot and USD-futures) behind an in-memory websocket with delivery faults (drop/dup/swap/replay/early-late start/EOF/junk frames), through the real parser, transformers+sequencers, reconnect pipeline and OrderBookL2Manager; local book compared with the exchange book as of its reported sequence after every applied event",
         "Seeded search over exchange book evolutions x snapshot points x delivery perturbations for both rule sets across 1-3 instruments on one connection, with reconnects taking fresh snapshots. Checks the admitted updates form an unbroken chain under the venue rule (B1), a break ends the connection with exactly one reconnecting notice and a snapshot next (B2), every book equals the exchange's book at the sequence it reports at every instant the manager has applied an event (B3), gap-free deliveries with an old prefix never error (B4), nothing is skipped silently and junk frames are harmless (B5).",
-        "Trusted: the simulated exchange (change log + JSON rendering), the reference old/chains/break classifier written from the venue's published rule, and the probe stream between pipeline and manager. The body of MarketStream::init (TCP/TLS connect, subscribe handshake, REST fetch, events buffered during subscription validation) needs real sockets and is not run; the harness assembles transformer + snapshot buffer + ExchangeStream::new in the same order.",
+        "Trusted: the simulated exchange (change log + JSON rendering), the reference old/chains/break classifier written from the venue's published rule, and the probe stream between pipeline and manager. The body of MarketStream::init (TCP/TLS connect, subscribe handshake, REST fetch) needs real sockets and is not run; the harness assembles transformer + process_buffered_events (frames 'buffered during the handshake': stale / harmless ones, optionally closed by a chain-breaking event) + snapshot buffer + ExchangeStream::new in the same order. A 'busy reader' fault lets another real thread hold the shared book's read lock while the manager applies an item (the order of lock events is fixed by hand-shakes; only durations are real).",
     ),
     "C12": (
         "D1", "5/C12",
@@ -33,14 +33,14 @@ BUILT = {
     "C07": (
         "C", "5/C07",
         "deterministic simulation: real ExecutionManager::run on a paused, seeded current-thread tokio runtime (discrete-event virtual time) behind a scripted ExecutionClient (delays around the timeout, silence, errors), history check with exact virtual timestamps",
-        "Seeded search over request batches (1-64 outstanding, bursts), per-request client behaviour (Ok / fully filled / rejected / connectivity error after any delay below, at or above the timeout, or never), timeouts from 1 ms to 60 s, select! tie-breaks and a response receiver that goes away. The recorded response history must contain exactly one event per accepted request, at the exact virtual instant, of the right kind and attribution, the client's own answer iff it beat the timeout.",
+        "Seeded search over request batches (1-64 outstanding, bursts), per-request client behaviour (Ok / fully filled / rejected / connectivity error after any delay below, at or above the timeout, or never), timeouts from 1 ms to 60 s, select! tie-breaks and a response receiver that goes away; some requests share the client order id of another request on a different instrument. The recorded response history must contain exactly one event per accepted request, at the exact virtual instant, of the right kind and attribution, the client's own answer iff it beat the timeout.",
         "Trusted: the scripted client, the virtual-time driver/collector and tokio's paused-clock runtime (timer wheel, FIFO run queue, seeded select!). A response exactly at the timeout instant is accepted either way; a clock-leap fault (the clock jumps past the response instant and the deadline in one step) distinguishes 'response first' from 'deadline first' when the delay is below the timeout. Multi-threaded runtime scheduling is not explored.",
     ),
     "C04": (
         "C", "5/C04",
         "deterministic simulation: random multi-exchange topologies (shared names, perpetuals settled in a third asset, tracked-but-untraded exchanges) wired by the real ExecutionBuilder::add_live / ExecutionBuild::init with one ExecutionManager per traded exchange running concurrently on a paused tokio runtime, real engine issuing requests for every instrument, clients emitting account events by name (also reports naming a foreign exchange); routing invariant + index<->name round trip per topology",
         "Seeded search over instrument collections (1-4 exchanges, spot/perpetual, shared asset and instrument names, any definition order). For each topology every index of every exchange must translate index->name->index to itself and foreign indices must not translate; then, with all managers running, every request must reach exactly its exchange's client addressed to that instrument's exchange name, and every balance / order / trade event emitted by name must change exactly the named asset / instrument in the engine.",
-        "Trusted: the scripted clients (one const-generic client type per simulator exchange) and the virtual-time driver. The round-trip part is a per-topology check that rides on the simulation's random topologies; the routing part needs the running managers and the builder's link table. Response timing faults are C07's subject and not injected here.",
+        "Trusted: the scripted clients (one const-generic client type per simulator exchange) and the virtual-time driver. The round-trip part is a per-topology check that rides on the simulation's random topologies; the routing part needs the running managers and the builder's link table. Response timing faults are C07's subject and not injected here, except pairs of opens in flight at once that share a client order id on two instruments of one exchange; initial account snapshots may list every instrument, with or without an open order.",
     ),
     "C10": (
         "F", "5/C10",
@@ -97,7 +97,7 @@ NOT_APPLICABLE = {
 }
 
 # properties that additionally get whole-system runs (Sim H): every N-th run of the batch
-WHOLE = {"C01": 40, "C03": 10, "C07": 20, "C09": 40, "C10": 8, "C14": 20, "C15": 25}
+WHOLE = {"C01": 40, "C03": 10, "C07": 20, "C09": 40, "C10": 8, "C14": 20, "C15": 25, "C19": 10}
 WHOLE_TECH = " + whole-system runs (every {n}th run): real ExecutionBuilder::add_live -> ExecutionManager::init/run -> SystemBuild::init (stream feed, audit on) -> Engine with LiveClock on the simulated clock, driven only from outside (market stream, scripted exchange clients with delays / silence / errors / lagging unsolicited reports / dropped account connections, operator commands, strategy batches, an exchange without execution link, clock leaps, spurious channel wake-ups), judged after a quiet period from the audit stream, the requests each client received and the engine returned by System::shutdown"
 WHOLE_TEXT = {
     "C01": " Whole-system runs fold the same lifecycle model over the audited end-to-end history: it bounds each order's exchange-reported data after every audit record (on a real replica) and its exact state, in-flight markers included, in the engine handed back.",
@@ -105,6 +105,7 @@ WHOLE_TEXT = {
     "C07": " Whole-system runs: per (order, kind) the engine must process exactly as many answers as the exchange client received requests, the client's answer iff it beat the timeout, and once faults stop (2 x (timeout + slowest client) + 1 s of virtual time) no order of the returned engine may still be in flight.",
     "C09": " Whole-system runs: balance snapshots, order reports and public trades stamped up to 500 ms in the past race through the real account / market pipelines; after every audit record (on a replica) each balance and last traded price must carry the greatest exchange timestamp delivered so far with a value delivered at that timestamp, an order's exchange data never moves back while it stays tracked, and the returned engine must hold the same.",
     "C15": " Whole-system runs: fills arrive on a real account stream and public trades (some stamped in the past) on the market stream of the running system; after every audit record (on a replica) P1 / P2 / P3 are evaluated as above, and the returned engine must hold the replica's positions.",
+    "C19": " Whole-system runs: cancel-orders and close-positions commands with every filter shape go through System::cancel_orders / close_positions of the running system; the cancels requested are compared with the lifecycle model's view of every order (tracked and not already being cancelled, inside the filter, addressed with the exchange order id when known, each at most once), the close orders with the replica's positions and prices inside the filter.",
     "C10": " Whole-system runs: the audit stream handed out by SystemBuild::init must have consecutive sequences, one record per item pushed into the running system, exactly the last record terminal, and a real replica following it must end equal to the engine returned by System::shutdown.",
     "C14": " Whole-system runs: health per link and globally after every audit record (on a replica) and on the returned engine, one on-disconnect call per notice, and exactly one account notice per account connection the exchange client dropped.",
 }
